@@ -39,3 +39,8 @@ pub(crate) const LOG_TARGET_FILTER: &str = "ckb_filter";
 /// verification hook (off unless built with `--cfg ckb_verif`): name the in-flight table for external harnesses
 #[cfg(ckb_verif)]
 pub use crate::types::{InflightBlocks, InflightState};
+
+/// verification hook (off unless built with `--cfg ckb_verif`): name the result of `Relayer::reconstruct_block`
+/// and reach the crate-private relay verifiers from an external harness
+#[cfg(ckb_verif)]
+pub use crate::relayer::{ReconstructionResult, verif_hooks as relayer_verif_hooks};
